@@ -123,7 +123,8 @@ class ScriptedEnv(ParallelEnv):
         if not f:
             return
         if f[0] == "raise":
-            raise EXC[f[1]](f"injected fault in env {self.idx} at command {self.ncmd}")
+            big = len(f) > 2 and f[2] == "big"         # an exception whose report is larger than a pipe buffer (300 kB message)
+            raise EXC[f[1]](f"injected fault in env {self.idx} at command {self.ncmd}" + ("; " + "x" * 300000 if big else ""))
         if f[0] == "sleep":
             time.sleep(float(f[1]))
         if f[0] == "kill":
@@ -151,7 +152,8 @@ class ScriptedEnv(ParallelEnv):
         self.ep += 1
         self.t = 0
         self.agents = self.possible_agents[:]
-        return self._obs(self.agents), {ag: {"tick": self.tick} for ag in self.agents}
+        sd = -1 if seed is None else int(seed)              # the seed this environment's reset() received
+        return self._obs(self.agents), {ag: {"tick": self.tick, "seed": sd} for ag in self.agents}
 
     def step(self, actions):
         self._command()
@@ -166,6 +168,8 @@ class ScriptedEnv(ParallelEnv):
             a = int(ag.split("_")[1])
             act = actions[ag]
             act = float(np.asarray(act).reshape(-1)[0])
+            if self.continuous:
+                act -= 0.5                                  # continuous actions are sent as v + 0.5 (a truncated action shows)
             rew[ag] = 10.0 * act + self.t
             leaving = (not last) and self.leave.get(a, 10 ** 9) <= self.t
             if last:
@@ -425,7 +429,7 @@ def run_data(cfg, ops, seed=0):
             env = mk[0]()
         nstep = 0
         for op in ops:
-            e = {"op": op[0], "exc": "", "shape_ok": True, "prev_ok": True, "out": []}
+            e = {"op": op[0], "exc": "", "shape_ok": True, "prev_ok": True, "out": [], "seeds": []}
             if op[0] == "step":
                 e["actions"] = op[1]
             try:
@@ -434,7 +438,7 @@ def run_data(cfg, ops, seed=0):
                         obs, info = env.reset(seed=seed)
                         rew = term = trunc = None
                     else:
-                        acts = {ag: (np.array([[float(op[1][i][a])] for i in range(NW)], dtype=np.float32) if cfg.get("continuous")
+                        acts = {ag: (np.array([[float(op[1][i][a]) + 0.5] for i in range(NW)], dtype=np.float32) if cfg.get("continuous")
                                      else np.array([op[1][i][a] for i in range(NW)])) for a, ag in enumerate(agents)}
                         nstep += 1
                         obs, rew, term, trunc, info = env.step(_reorder(acts, nstep))
@@ -457,6 +461,14 @@ def run_data(cfg, ops, seed=0):
                                          "trunc": False if trunc is None else bool(trunc[ag][i]), "tick": tick})
                         out.append(rowl)
                     e["out"] = out
+                    if op[0] == "reset":
+                        sds = []
+                        for i in range(NW):
+                            try:
+                                sds.append(int(info[agents[0]]["seed"][i]))
+                            except Exception:
+                                sds.append(-2)
+                        e["seeds"] = sds
                     if cfg.get("copy", True):
                         e["prev_ok"] = all([[decode_obs(kind, _row(kind, o[ag], i)) for ag in agents] for i in range(NW)] == ids
                                            for o, ids in handed)
@@ -467,7 +479,7 @@ def run_data(cfg, ops, seed=0):
                         rew, term, trunc = {}, {}, {}
                     else:
                         live = list(env.agents) if mode == "wrapper" else list(env.agents)
-                        acts = {ag: (np.array([float(op[1][0][a])], dtype=np.float32) if cfg.get("continuous") else op[1][0][a])
+                        acts = {ag: (np.array([float(op[1][0][a]) + 0.5], dtype=np.float32) if cfg.get("continuous") else op[1][0][a])
                                 for a, ag in enumerate(agents) if ag in live}
                         nstep += 1
                         obs, rew, term, trunc, info = env.step(_reorder(acts, nstep))
@@ -481,6 +493,11 @@ def run_data(cfg, ops, seed=0):
                                      "term": bool(term.get(ag, False)), "trunc": bool(trunc.get(ag, False)),
                                      "tick": int(info[ag]["tick"]) if ag in info and "tick" in info[ag] else -1})
                     e["out"] = [rowl]
+                    if op[0] == "reset":
+                        try:
+                            e["seeds"] = [int(info[agents[0]]["seed"])]
+                        except Exception:
+                            e["seeds"] = [-2]
             except Exception as ex:
                 e["exc"] = f"{type(ex).__name__}: {ex}"[:200]
                 e["out"] = [[{"present": False, "obs": -1, "rew": 0, "term": False, "trunc": False, "tick": -1} for _ in agents] for _ in range(NW)]
@@ -493,4 +510,5 @@ def run_data(cfg, ops, seed=0):
                 env.close(terminate=True)
         except Exception:
             pass
+    cfg = dict(cfg, seed=int(seed))
     return {"cfg": cfg, "ev": ev}
